@@ -82,6 +82,7 @@ MUTANTS = [
     {"id": "C06-revert-concat-resumable", "prop": "C06", "revert": ["SUBJECT:concat survives an exception"]},
     {"id": "C06-revert-interpose-lazy", "prop": "C06", "revert": ["SUBJECT:interpose does not realize the element after"]},
     {"id": "C06-revert-with-meta-empty", "prop": "C06", "revert": ["SUBJECT:with-meta on a realized empty lazy sequence"]},
+    {"id": "C06-revert-nested-lazyseq-shares", "prop": "C06", "revert": ["SUBJECT:a lazy seq wrapping another lazy seq shares"]},
     {"id": "C06-map-calls-f-twice", "prop": "C06", "edits": [
         R(CORE, "      (cons (f (first coll)) (map f (rest coll))))))\n  ([f coll & colls]",
           "      (do (f (first coll)) (cons (f (first coll)) (map f (rest coll)))))))\n  ([f coll & colls]")]},
